@@ -28,8 +28,8 @@ ASSUMPTIONS = [
     '& is judged in C08/C17 (boolean text form is attributed to its known '
     'finding), 0^0, 0^negative, negative^fraction, overflow',
 ]
-FLOORS = {'evaluate_outcomes': 2000, 'op_applications': 4000,
-          'pairs_seen': 144, 'rendering_groups': 500}
+FLOORS = {'evaluate_outcomes': 2000, 'pairs_seen': 144,
+          'rendering_groups': 500}
 ANCHOR_FUNCS = {
     'xlcalculator/parser.py': ['FormulaParser.shunting_yard',
                                'FormulaParser.build_ast'],
